@@ -72,14 +72,15 @@ pub fn doc_with(order: &[&str], vals: &[String], title: &str) -> Map<String, Val
     m
 }
 
-/// a document chosen among the first `k` orders, element values symbolic when `symbolic`
-pub fn any_doc(k: usize, symbolic: bool) -> Map<String, Value> {
+/// a document chosen among the first `k` orders; the first `nsym` element values and (if nsym > 0) the title
+/// are symbolic, everything else concrete
+pub fn any_doc(k: usize, nsym: usize) -> Map<String, Value> {
     let o = ORDERS[sym::choose(k)];
     let mut vals = Vec::new();
-    for _ in 0..o.len() {
-        vals.push(if symbolic { val() } else { "x".to_string() });
+    for i in 0..o.len() {
+        vals.push(if i < nsym { val() } else { "x".to_string() });
     }
-    let t = if symbolic { val() } else { "t".to_string() };
+    let t = if nsym > 1 { val() } else { "t".to_string() };
     doc_with(o, &vals, &t)
 }
 
